@@ -66,6 +66,11 @@ step_exec(const char *step_name, struct config *config, struct arena *scratch,
 	 * handler is in place would otherwise leave the process group behind.
 	 */
 	siginstall(SIGTERM, sighandler, SIG_NO_RESTART);
+	/*
+	 * The step is waited for, an inherited ignored SIGCHLD would let the
+	 * kernel reap it and leave waitpid(2) with nothing but ECHILD.
+	 */
+	siginstall(SIGCHLD, SIG_DFL, 0);
 
 	error = step_fork(&c, command, &pid);
 	if (error)
@@ -202,6 +207,8 @@ siginstall(int signo, void (*handler)(int), int restart)
 	sa.sa_handler = handler;
 	if (restart == SIG_NO_RESTART)
 		sa.sa_flags &= ~SA_RESTART;
+	if (signo == SIGCHLD)
+		sa.sa_flags &= ~SA_NOCLDWAIT;
 	if (sigaction(signo, &sa, NULL) == -1)
 		err(1, "sigaction");
 }
